@@ -360,3 +360,6 @@ PROPS["C06"]["must_reach"]["quick"] = PROPS["C06"]["must_reach"]["quick"] + ["sy
 PROPS["C02"]["rule"] = PROPS["C02"]["rule"] + "; in 1 of 4 runs a write to a metadata file fails (injected ENOSPC) during one Close: a Close that reports the error is followed by the death of the process and a recovering Open that must find every acknowledged write; a Close that reports success is under the clean-restart oracle"
 PROPS["C02"]["must_reach"]["quick"] = PROPS["C02"]["must_reach"]["quick"] + ["reopen_after_failed_close"]
 PROPS["C02"]["must_reach"]["thorough"] = PROPS["C02"]["must_reach"]["thorough"] + ["reopen_after_failed_close"]
+
+PROPS["C17"]["rule"] = PROPS["C17"]["rule"].replace("executed four times: on the simulated disk, fs.Mem, fs.OS and fs.OSMMap,", "executed five times: on the simulated disk, fs.Mem, fs.OS, fs.OSMMap and on one real directory opened alternately through fs.OS and fs.OSMMap session by session (cross-file-system reopen),").replace("the four traces", "the five traces")
+PROPS["C17"]["must_reach"]["quick"] = PROPS["C17"]["must_reach"]["quick"] + ["cross_fs_reopen", "compaction_inside_scan"]
